@@ -48,7 +48,161 @@ pub struct Variant {
     pub n: usize,
 }
 
+/// the entries of an encryption dictionary that `CryptDict` reads, in the form both the PDF text and
+/// the model driver's request are rendered from
+#[derive(Clone, Debug, Default)]
+pub struct DictFields {
+    pub o: Vec<u8>,
+    pub u: Vec<u8>,
+    pub r: i64,
+    pub p: i64,
+    pub v: i64,
+    pub bits: Option<i64>,
+    /// (name, CFM name or None for an absent CFM, Length, write /Type, write /AuthEvent)
+    pub cf: Vec<(String, Option<String>, Option<i64>, bool, bool)>,
+    pub stm_f: Option<String>,
+    pub str_f: Option<String>,
+    pub encrypt_metadata: Option<bool>,
+    pub oe: Option<Vec<u8>>,
+    pub ue: Option<Vec<u8>>,
+    pub perms: Option<Vec<u8>>,
+}
+
+impl DictFields {
+    pub fn to_pv(&self) -> PV {
+        let mut ed: Vec<(String, PV)> = vec![("Filter".into(), PV::Name("Standard".into())), ("V".into(), PV::Int(self.v)), ("R".into(), PV::Int(self.r))];
+        if let Some(b) = self.bits {
+            ed.push(("Length".into(), PV::Int(b)));
+        }
+        if !self.cf.is_empty() {
+            let mut cfs = vec![];
+            for (name, cfm, len, ty, auth) in &self.cf {
+                let mut cf: Vec<(String, PV)> = vec![];
+                if *ty {
+                    cf.push(("Type".into(), PV::Name("CryptFilter".into())));
+                }
+                if let Some(m) = cfm {
+                    cf.push(("CFM".into(), PV::Name(m.clone())));
+                }
+                if *auth {
+                    cf.push(("AuthEvent".into(), PV::Name("DocOpen".into())));
+                }
+                if let Some(l) = len {
+                    cf.push(("Length".into(), PV::Int(*l)));
+                }
+                cfs.push((name.clone(), PV::Dict(cf)));
+            }
+            ed.push(("CF".into(), PV::Dict(cfs)));
+        }
+        if let Some(n) = &self.stm_f {
+            ed.push(("StmF".into(), PV::Name(n.clone())));
+        }
+        if let Some(n) = &self.str_f {
+            ed.push(("StrF".into(), PV::Name(n.clone())));
+        }
+        ed.push(("O".into(), PV::Str(self.o.clone())));
+        ed.push(("U".into(), PV::Str(self.u.clone())));
+        if let Some(x) = &self.oe {
+            ed.push(("OE".into(), PV::Str(x.clone())));
+        }
+        if let Some(x) = &self.ue {
+            ed.push(("UE".into(), PV::Str(x.clone())));
+        }
+        if let Some(x) = &self.perms {
+            ed.push(("Perms".into(), PV::Str(x.clone())));
+        }
+        ed.push(("P".into(), PV::Int(self.p)));
+        if let Some(b) = self.encrypt_metadata {
+            ed.push(("EncryptMetadata".into(), PV::Bool(b)));
+        }
+        PV::Dict(ed)
+    }
+    /// `o;u;r;p;v;bits|-;cf;stmF|-;encMeta|-;oe|-;ue|-` (see lean/PdfModel/Drv/C06.lean)
+    pub fn proto(&self) -> String {
+        let h = |b: &[u8]| if b.is_empty() { "_".to_string() } else { crate::driver::hex(b) };
+        let oh = |b: &Option<Vec<u8>>| b.as_ref().map(|x| h(x)).unwrap_or_else(|| "-".into());
+        let cf = if self.cf.is_empty() {
+            "~".to_string()
+        } else {
+            self.cf
+                .iter()
+                .map(|(n, m, l, _, _)| {
+                    let m = match m.as_deref() { None | Some("None") => "none", Some("V2") => "v2", Some("AESV2") => "aesv2", Some("AESV3") => "aesv3", Some(x) => panic!("CFM {}", x) };
+                    format!("{}={}.{}", h(n.as_bytes()), m, l.map(|x| x.to_string()).unwrap_or_else(|| "-".into()))
+                })
+                .collect::<Vec<_>>()
+                .join("+")
+        };
+        format!(
+            "{};{};{};{};{};{};{};{};{};{};{}",
+            h(&self.o), h(&self.u), self.r, self.p, self.v,
+            self.bits.map(|b| b.to_string()).unwrap_or_else(|| "-".into()),
+            cf,
+            self.stm_f.as_ref().map(|n| h(n.as_bytes())).unwrap_or_else(|| "-".into()),
+            self.encrypt_metadata.map(|b| if b { "1" } else { "0" }.to_string()).unwrap_or_else(|| "-".into()),
+            oh(&self.oe), oh(&self.ue)
+        )
+    }
+}
+
+/// the dictionary a conforming writer produces for `var` (the places where the key length may be
+/// stated are chosen at random)
+pub fn dict_fields(rng: &mut Rng, var: &Variant, e: &Entries, p: i32, encrypt_metadata: bool) -> (DictFields, &'static str) {
+    let mut f = DictFields { o: e.o.clone(), u: e.u.clone(), r: var.r as i64, p: p as i64, v: var.v as i64, ..Default::default() };
+    let mut desc_len = "dictLength";
+    match var.v {
+        1 => {
+            if rng.chance(1, 2) {
+                f.bits = Some(40);
+            } else {
+                desc_len = "noLength";
+            }
+        }
+        2 => f.bits = Some(8 * var.n as i64),
+        4 => {
+            // the key length may be stated in the dictionary, in the crypt filter (in bytes), or both
+            let mode = if var.n == 5 { rng.below(3) } else { 1 + rng.below(2) };
+            let mut cf_len = None;
+            match mode {
+                0 => desc_len = "noLength",
+                1 => f.bits = Some(8 * var.n as i64),
+                _ => {
+                    f.bits = Some(8 * var.n as i64);
+                    cf_len = Some(var.n as i64);
+                    desc_len = "dict+cfLength";
+                }
+            }
+            f.cf.push(("StdCF".into(), Some(if var.cipher == Cipher::Rc4 { "V2" } else { "AESV2" }.to_string()), cf_len, rng.chance(1, 2), rng.chance(1, 2)));
+            f.stm_f = Some("StdCF".into());
+            f.str_f = Some("StdCF".into());
+        }
+        _ => {
+            let cf_len = if rng.chance(1, 2) { Some(32) } else { None };
+            if rng.chance(1, 2) {
+                f.bits = Some(256);
+            }
+            f.cf.push(("StdCF".into(), Some("AESV3".into()), cf_len, rng.chance(1, 2), rng.chance(1, 2)));
+            f.stm_f = Some("StdCF".into());
+            f.str_f = Some("StdCF".into());
+        }
+    }
+    if var.r >= 5 {
+        f.oe = Some(e.oe.clone());
+        f.ue = Some(e.ue.clone());
+        f.perms = Some(e.perms.clone());
+    }
+    if var.v >= 4 && (!encrypt_metadata || rng.chance(1, 2)) {
+        f.encrypt_metadata = Some(encrypt_metadata);
+    }
+    (f, desc_len)
+}
+
 pub struct Doc {
+    pub fields: DictFields,
+    /// per object (parallel to `objects`): the strings as stored in the file, in document order, and
+    /// for a stream its stored data as the last item
+    pub stored: Vec<Vec<Vec<u8>>>,
+    pub metadata_ref: Option<(u64, u64)>,
     pub bytes: Vec<u8>,
     pub variant: Variant,
     pub params: Params,
@@ -330,66 +484,8 @@ pub fn build(rng: &mut Rng, opt: &DocOptions, user_pw: &[u8], owner_pw: &[u8]) -
     }
 
     // the encryption dictionary (plaintext strings, never encrypted)
-    let mut ed: Vec<(String, PV)> = vec![("Filter".into(), PV::Name("Standard".into())), ("V".into(), PV::Int(var.v as i64)), ("R".into(), PV::Int(var.r as i64))];
-    let mut desc_len = "dictLength";
-    match var.v {
-        1 => {
-            if rng.chance(1, 2) {
-                ed.push(("Length".into(), PV::Int(40)));
-            } else {
-                desc_len = "noLength";
-            }
-        }
-        2 => ed.push(("Length".into(), PV::Int(8 * var.n as i64))),
-        4 => {
-            // the key length may be stated in the dictionary, in the crypt filter (in bytes), or both
-            let mode = if var.n == 5 { rng.below(3) } else { 1 + rng.below(2) };
-            let mut cf: Vec<(String, PV)> = vec![];
-            if rng.chance(1, 2) {
-                cf.push(("Type".into(), PV::Name("CryptFilter".into())));
-            }
-            cf.push(("CFM".into(), PV::Name(if var.cipher == Cipher::Rc4 { "V2" } else { "AESV2" }.into())));
-            if rng.chance(1, 2) {
-                cf.push(("AuthEvent".into(), PV::Name("DocOpen".into())));
-            }
-            match mode {
-                0 => desc_len = "noLength",
-                1 => ed.push(("Length".into(), PV::Int(8 * var.n as i64))),
-                _ => {
-                    ed.push(("Length".into(), PV::Int(8 * var.n as i64)));
-                    cf.push(("Length".into(), PV::Int(var.n as i64)));
-                    desc_len = "dict+cfLength";
-                }
-            }
-            ed.push(("CF".into(), PV::Dict(vec![("StdCF".into(), PV::Dict(cf))])));
-            ed.push(("StmF".into(), PV::Name("StdCF".into())));
-            ed.push(("StrF".into(), PV::Name("StdCF".into())));
-        }
-        _ => {
-            let mut cf: Vec<(String, PV)> = vec![("CFM".into(), PV::Name("AESV3".into()))];
-            if rng.chance(1, 2) {
-                cf.push(("Length".into(), PV::Int(32)));
-            }
-            if rng.chance(1, 2) {
-                ed.push(("Length".into(), PV::Int(256)));
-            }
-            ed.push(("CF".into(), PV::Dict(vec![("StdCF".into(), PV::Dict(cf))])));
-            ed.push(("StmF".into(), PV::Name("StdCF".into())));
-            ed.push(("StrF".into(), PV::Name("StdCF".into())));
-        }
-    }
-    ed.push(("O".into(), PV::Str(entries.o.clone())));
-    ed.push(("U".into(), PV::Str(entries.u.clone())));
-    if var.r >= 5 {
-        ed.push(("OE".into(), PV::Str(entries.oe.clone())));
-        ed.push(("UE".into(), PV::Str(entries.ue.clone())));
-        ed.push(("Perms".into(), PV::Str(entries.perms.clone())));
-    }
-    ed.push(("P".into(), PV::Int(p as i64)));
-    if var.v >= 4 && (!opt.encrypt_metadata || rng.chance(1, 2)) {
-        ed.push(("EncryptMetadata".into(), PV::Bool(opt.encrypt_metadata)));
-    }
-    let encrypt_pv = PV::Dict(ed);
+    let (fields, desc_len) = dict_fields(rng, &var, &entries, p, opt.encrypt_metadata);
+    let encrypt_pv = fields.to_pv();
     if opt.indirect_encrypt {
         objects.push(Obj { id: 6, gen: 0, body: Body::Value(encrypt_pv.clone()), compressed: false, role: 1 });
     }
@@ -402,17 +498,21 @@ pub fn build(rng: &mut Rng, opt: &DocOptions, user_pw: &[u8], owner_pw: &[u8]) -
     let cipher = var.cipher;
     let mut wrng = Rng::derive(rng.next(), "c06.syntax", 0);
     let mut members: Vec<(u64, Vec<u8>)> = vec![];
+    let mut stored_all: Vec<Vec<Vec<u8>>> = vec![];
     for o in &objects {
         let (id, gen) = (o.id, o.gen);
         let exempt_strings = o.role == 1 || o.compressed;
+        let mut stored: Vec<Vec<u8>> = vec![];
         let mut enc = |s: &[u8]| -> Vec<u8> {
-            if exempt_strings {
+            let c = if exempt_strings {
                 s.to_vec()
             } else {
                 let mut iv = [0u8; 16];
                 iv.copy_from_slice(&ivrng.bytes(16));
                 encrypt_object(&mut quiet, cipher, &file_key, id, gen, s, &iv)
-            }
+            };
+            stored.push(c.clone());
+            c
         };
         match &o.body {
             Body::Value(v) => {
@@ -423,6 +523,7 @@ pub fn build(rng: &mut Rng, opt: &DocOptions, user_pw: &[u8], owner_pw: &[u8]) -
                 } else {
                     w.object(id, gen, &b);
                 }
+                stored_all.push(stored);
             }
             Body::Stream(d, data, flate) => {
                 let mut dict = vec![];
@@ -437,6 +538,7 @@ pub fn build(rng: &mut Rng, opt: &DocOptions, user_pw: &[u8], owner_pw: &[u8]) -
                 if *flate {
                     dict.extend_from_slice(b"/Filter /FlateDecode");
                 }
+                let stored_strs = std::mem::take(&mut stored);
                 let exempt_stream = o.role == 2 && !opt.encrypt_metadata;
                 let stored = if exempt_stream {
                     filtered
@@ -451,6 +553,9 @@ pub fn build(rng: &mut Rng, opt: &DocOptions, user_pw: &[u8], owner_pw: &[u8]) -
                 body.extend_from_slice(&stored);
                 body.extend_from_slice(b"\nendstream");
                 w.object(id, gen, &body);
+                let mut items = stored_strs;
+                items.push(stored);
+                stored_all.push(items);
             }
         }
     }
@@ -505,6 +610,9 @@ pub fn build(rng: &mut Rng, opt: &DocOptions, user_pw: &[u8], owner_pw: &[u8]) -
         user_pw: user_pw.to_vec(),
         owner_pw: owner_pw.to_vec(),
         objects,
+        fields,
+        stored: stored_all,
+        metadata_ref: if with_meta { Some((7, 0)) } else { None },
         encrypt_ref: if opt.indirect_encrypt { Some((6, 0)) } else { None },
         info_ref: Some((5, 0)),
         xref_stream: opt.xref_stream,
